@@ -220,6 +220,9 @@ func collectLabelCounts(b *world.BodySpec, out map[string]map[int]bool, kinds ma
 	if b == nil || depth > 12 {
 		return
 	}
+	if b.Any != nil {
+		kinds["\x00any-attribute-body"] = map[string]bool{"": true}
+	}
 	for _, a := range b.Attrs {
 		if kinds[a.Name] == nil {
 			kinds[a.Name] = map[string]bool{}
@@ -325,6 +328,12 @@ func (o *C19) Check(x *h.Exec, ev *h.Event) {
 				if it.Block == nil || it.Block.Type == "dynamic" || it.Block.Type == "content" {
 					return
 				}
+				// a block of a type no body declares, in a schema that has
+				// any-attribute bodies: JSON may read it as an attribute (also
+				// inside the content of dynamic blocks, which the model skips)
+				if len(lc[it.Block.Type]) == 0 && attrKinds["\x00any-attribute-body"] != nil {
+					certain = false
+				}
 				for n := range lc[it.Block.Type] { // maporder:ok (any mismatch)
 					if n != len(it.Block.Labels) {
 						certain = false
@@ -343,9 +352,10 @@ func (o *C19) Check(x *h.Exec, ev *h.Event) {
 			model.Walk(p.Spec.Schema, f.Spec.Items, func(mc *model.Ctx) {
 				// a block written in a body that accepts any attribute cannot be told
 				// from an attribute in JSON
+				// (a block type the body declares is told apart by the schema)
 				if mc.Body != nil && mc.Body.Any != nil {
 					for _, it := range mc.Items {
-						if it.Block != nil {
+						if it.Block != nil && mc.Body.Block(it.Block.Type) == nil {
 							certain = false
 						}
 					}
